@@ -1028,7 +1028,9 @@ fn migration(ctx: &Ctx) -> (u64, u64) {
     let mut nodes = 0u64;
     for (kind, off, len) in [("write", 0usize, 8usize), ("write", 4, 4), ("write", 2, 4), ("write", 6, 8), ("write_obj-u64", 8, 8), ("store-u32", 4, 4), ("ref-store-u32", 6, 4), ("array-copy_from-u16", 2, 6), ("read_volatile_from", 3, 5),
         ("write_slice", 3, 6), ("read_exact_volatile_from", 2, 7), ("slice-copy_from-u8", 1, 7), ("slice-copy_from-u32", 4, 8), ("array-store-u16", 6, 2),
-        ("copy_to_volatile_slice", 2, 10), ("array-copy_to_volatile_slice-u16", 2, 8)] {
+        ("copy_to_volatile_slice", 2, 10), ("array-copy_to_volatile_slice-u16", 2, 8),
+        // descriptor reads: the kernel stores the bytes inside read(2), which is a scheduling point
+        ("fd-read_volatile_from", 3, 6), ("fd-read_exact_volatile_from", 5, 8), ("fd-slice-read_volatile_from", 0, 4), ("fd-two-reads", 2, 9)] {
         let stats = explore_seq(None, |ex| {
             let p = 4usize;
             let region = MmapRegionBuilder::new_with_bitmap(16, AtomicBitmap::new(16, NonZeroUsize::new(p).unwrap()))
@@ -1071,6 +1073,38 @@ fn migration(ctx: &Ctx) -> (u64, u64) {
                         } else {
                             src.get_array_ref::<u16>(0, len / 2).unwrap().copy_to_volatile_slice(dst);
                         }
+                    }
+                    k if k.starts_with("fd-") => {
+                        use std::io::{Seek, SeekFrom, Write};
+                        use std::os::fd::AsRawFd;
+                        let mut f = crate::layouts::tempfile().unwrap();
+                        f.write_all(&data).unwrap();
+                        f.seek(SeekFrom::Start(0)).unwrap();
+                        let fd = f.as_raw_fd();
+                        crate::interpose::with_io_handler(
+                            Box::new(move |q: &crate::interpose::IoReq| {
+                                if q.fd == fd && q.is_read {
+                                    crate::sched::step("read(2)");
+                                }
+                                crate::interpose::IoAnswer::Pass
+                            }),
+                            || match k {
+                                "fd-read_volatile_from" => {
+                                    assert_eq!(r1.read_volatile_from(a, &mut f, len).unwrap(), len);
+                                }
+                                "fd-read_exact_volatile_from" => r1.read_exact_volatile_from(a, &mut f, len).unwrap(),
+                                "fd-slice-read_volatile_from" => {
+                                    use vm_memory::ReadVolatile;
+                                    let mut s = r1.as_volatile_slice().unwrap().subslice(off, len).unwrap();
+                                    assert_eq!(f.read_volatile(&mut s).unwrap(), len);
+                                }
+                                _ => {
+                                    // two transfers from one descriptor into neighbouring ranges
+                                    assert_eq!(r1.read_volatile_from(a, &mut f, 4).unwrap(), 4);
+                                    r1.read_exact_volatile_from(MemoryRegionAddress(off as u64 + 4), &mut f, len - 4).unwrap();
+                                }
+                            },
+                        );
                     }
                     _ => {
                         let mut src: &[u8] = &data;
@@ -1118,7 +1152,7 @@ fn migration(ctx: &Ctx) -> (u64, u64) {
 pub fn run(prop: &'static str, tier: Tier, replay: Option<String>) -> i32 {
     let ctx = crate::new_ctx(prop, tier, "model_checking", &replay);
     let thorough = tier.thorough();
-    ctx.set_rule("E1, one enumeration judged by two oracles. (A) tracked VolatileSlices (plain RefSlice, RefSlice at a base offset, nested BaseSlice, ArcSlice, Option Some/None) of 16 and 24 bytes x page sizes {1,2,3,4,5,8,16,N+5} x every derivation chain of up to 2 (thorough 3) links (subslice, offset, split_at either half, get_slice, get_ref->to_slice, get_array_ref->to_slice / ref_at->to_slice; arguments from the boundary alphabet of the page size) x every write and read path of the container alphabet through the derived accessor x start bitmaps clean / checkerboard / all dirty; (B) one mmap region and (C) guest memory with two adjacent regions and a hole, page sizes as above: every route of the byte-access interface at every (address, length), descriptor reads through the real raw-fd adapter over interposed read(2) (full, short, failing after touching a prefix, EINTR), descriptor writes out of guest memory over interposed write(2) (full, short, EIO at once, ENOSPC after a prefix, EINTR, accepting nothing: nothing may be marked), accessors derived through the region/memory API, and write;reset;write histories; all histories of 3 (thorough 5) steps over an alphabet of 14 memory / reset / harvest / reset-range operations with memory and bitmap carried over (also on containers of 136 / 200 / 528 bytes whose bitmaps span two or three 64-page words, with writes and resets straddling the word boundary); single transfers of 64 KiB .. 128 KiB+1 through nine routes into a tracked container of 256 KiB with 4096- and 1000-byte pages. C05: every byte that differs from the pre-operation snapshot must be dirty in the owning region's bitmap at the region's own offset, and over a history a page that was written stays dirty until an operation that names it clears it; plus (E3) all interleavings of one tracked write (16 write paths, incl. the typed and the slice-to-slice copies) with one fetch-and-clear consumer that copies the reported pages - after a final pass the consumer's image must equal guest memory. C16: dirty-after == dirty-before U pages overlapping the bytes the reference model says were written, and in the histories a reset / reset-range / fetch-and-clear leaves exactly the other pages dirty and reports exactly what was dirty (a failing descriptor read may additionally mark its whole target). State = (memory contents, dirty set); every transition runs on the real objects.");
+    ctx.set_rule("E1, one enumeration judged by two oracles. (A) tracked VolatileSlices (plain RefSlice, RefSlice at a base offset, nested BaseSlice, ArcSlice, Option Some/None) of 16 and 24 bytes x page sizes {1,2,3,4,5,8,16,N+5} x every derivation chain of up to 2 (thorough 3) links (subslice, offset, split_at either half, get_slice, get_ref->to_slice, get_array_ref->to_slice / ref_at->to_slice; arguments from the boundary alphabet of the page size) x every write and read path of the container alphabet through the derived accessor x start bitmaps clean / checkerboard / all dirty; (B) one mmap region and (C) guest memory with two adjacent regions and a hole, page sizes as above: every route of the byte-access interface at every (address, length), descriptor reads through the real raw-fd adapter over interposed read(2) (full, short, failing after touching a prefix, EINTR), descriptor writes out of guest memory over interposed write(2) (full, short, EIO at once, ENOSPC after a prefix, EINTR, accepting nothing: nothing may be marked), accessors derived through the region/memory API, and write;reset;write histories; all histories of 3 (thorough 5) steps over an alphabet of 14 memory / reset / harvest / reset-range operations with memory and bitmap carried over (also on containers of 136 / 200 / 528 bytes whose bitmaps span two or three 64-page words, with writes and resets straddling the word boundary); single transfers of 64 KiB .. 128 KiB+1 through nine routes into a tracked container of 256 KiB with 4096- and 1000-byte pages. C05: every byte that differs from the pre-operation snapshot must be dirty in the owning region's bitmap at the region's own offset, and over a history a page that was written stays dirty until an operation that names it clears it; plus (E3) all interleavings of one tracked write (20 write paths, incl. the typed and the slice-to-slice copies and reads from a real descriptor with read(2) as a scheduling point) with one fetch-and-clear consumer that copies the reported pages - after a final pass the consumer's image must equal guest memory. C16: dirty-after == dirty-before U pages overlapping the bytes the reference model says were written, and in the histories a reset / reset-range / fetch-and-clear leaves exactly the other pages dirty and reports exactly what was dirty (a failing descriptor read may additionally mark its whole target). State = (memory contents, dirty set); every transition runs on the real objects.");
     ctx.assume("raw-pointer writes are exempt as documented; marks through a bare BaseSlice with wrapping offsets are outside both oracles");
     if ctx.replay_of.is_some() {
         println!("replay: the enumeration is deterministic; re-running the quick tier and reporting whether the recorded key fails again");
